@@ -805,6 +805,60 @@ func vfRunRandom(c *kit.Case, vc *kit.VClock) {
 	vfFinish(h)
 }
 
+// vfRunWeightFloor: all accepted calls in the oldest bucket of the window, then f buckets
+// holding only failures (smallest weight of the anchored mechanism), accepted count placed
+// on the statement's 5 + 10% boundary, then probes.
+func vfRunWeightFloor(c *kit.Case, vc *kit.VClock) {
+	r := c.R
+	h := vfNewHist(c, vc, "weight-floor")
+	if h.gb == nil {
+		c.Inconclusive("NewBreaker no longer wraps a googleBreaker the way the white-box test expects")
+		return
+	}
+	f := r.Range(6, 39)
+	if r.Chance(0.5) {
+		f = r.Range(30, 39)
+	}
+	per := make([]int, f)
+	n := 0
+	for i := range per {
+		per[i] = 1
+		if r.Chance(0.15) {
+			per[i] = r.Range(2, 3)
+		}
+		n += per[i]
+	}
+	a := 10*(n-5) + kit.Choose(r, []int{-11, -3, -1, 0, 0, 1, 1, 5, 40})
+	okEntry := func() *vfCall {
+		cl := &vfCall{E: vfEntry(r.Intn(5)), Out: vfOK, FbRet: r.Intn(3)}
+		if r.Chance(0.2) && cl.E != vfEDo && cl.E != vfEDoFb {
+			cl.Out = vfAcc
+		}
+		return cl
+	}
+	for i := 0; i < a && !c.Violated(); i++ {
+		vfStep(h, okEntry())
+	}
+	for i := 0; i < f && !c.Violated(); i++ {
+		gap := vfBucketDur
+		for j := 0; j < per[i] && !c.Violated(); j++ {
+			vfStep(h, &vfCall{Gap: gap, E: vfEntry(r.Intn(5)), Out: kit.Choose(r, []vfOutcome{vfUnacc, vfUnacc, vfPanic}), FbRet: r.Intn(3)})
+			gap = 0
+		}
+	}
+	probes := r.Range(1, 6)
+	for i := 0; i < probes && !c.Violated(); i++ {
+		cl := okEntry()
+		if r.Chance(0.3) {
+			cl.Out = vfUnacc
+		}
+		cl.Gap = kit.Choose(r, []time.Duration{0, 0, 1, time.Millisecond})
+		vfStep(h, cl)
+	}
+	c.Obs("wb_weight_floor_histories", 1)
+	vfFinish(h)
+}
+
 var vfExhGaps = []time.Duration{0, vfBucketDur, 39 * vfBucketDur}
 var vfExhOuts = []vfOutcome{vfOK, vfUnacc, vfAcc, vfPanic}
 
@@ -987,7 +1041,7 @@ func vfProbe(cr *vfConc, cl *vfCall) {
 }
 
 // vfConserve checks at quiescence that every call left exactly its one mark.
-func vfConserve(cr *vfConc, phase int, frozenIdx int64, frozen bool, t0 time.Duration) {
+func vfConserve(cr *vfConc, phase int) {
 	var want [3]int64
 	for _, rc := range cr.recs {
 		if rc.kind >= 0 {
@@ -1150,7 +1204,6 @@ func vfRunConcurrent(c *kit.Case, vc *kit.VClock) {
 		c.Inconclusive("NewBreaker no longer wraps a googleBreaker the way the white-box test expects")
 		return
 	}
-	t0 := vc.Now()
 	for ph := 0; ph < phases && !c.Violated(); ph++ {
 		g := vfNewGen(r)
 		if ph == 0 || r.Chance(0.6) {
@@ -1159,11 +1212,11 @@ func vfRunConcurrent(c *kit.Case, vc *kit.VClock) {
 		if !vfBurst(cr, G, n, g, advancing, 1500*time.Millisecond) {
 			return
 		}
-		vfConserve(cr, ph, 0, !advancing, t0)
+		vfConserve(cr, ph)
 		vfProbe(cr, &vfCall{E: vfEDo, Out: vfUnacc})
 		vc.Advance(vfForcePass + kit.Choose(r, []time.Duration{1, time.Millisecond}))
 		vfProbe(cr, &vfCall{E: vfEntry(r.Intn(5)), Out: vfUnacc, FbRet: r.Intn(3)})
-		vfConserve(cr, ph, 0, !advancing, t0)
+		vfConserve(cr, ph)
 	}
 	rej, legal, must := vfCheck(cr)
 	c.Obs("wb_concurrent_runs", 1)
@@ -1197,23 +1250,25 @@ func TestVerifC01W(t *testing.T) {
 	vc := kit.InstallVClock()
 	defer kit.UninstallVClock()
 
-	kit.Run(t, "C01", "wb-random", kit.N(400, 15000), func(c *kit.Case) {
+	kit.Run(t, "C01", "wb-random", kit.N(800, 18000), func(c *kit.Case) {
 		for i := 0; i < 10 && !c.Violated(); i++ {
 			vfRunRandom(c, vc)
 			c.Evals(1)
 		}
 	})
 
-	L := 3
+	type vfExh struct{ preload, L int }
+	exhs := []vfExh{{0, 4}, {7, 4}, {5, 3}}
 	if kit.Thorough() {
-		L = 5
-	}
-	total := 1
-	for i := 0; i < L; i++ {
-		total *= 12
+		exhs = []vfExh{{0, 5}, {5, 5}, {7, 5}}
 	}
 	const batch = 500
-	for _, preload := range []int{0, 5, 7} {
+	for _, e := range exhs {
+		preload, L := e.preload, e.L
+		total := 1
+		for i := 0; i < L; i++ {
+			total *= 12
+		}
 		for fam := 0; fam < 3; fam++ {
 			famName := fmt.Sprintf("wb-exh-pre%d-fam%d-L%d", preload, fam, L)
 			kit.Run(t, "C01", famName, (total+batch-1)/batch, func(c *kit.Case) {
@@ -1232,7 +1287,9 @@ func TestVerifC01W(t *testing.T) {
 		}
 	}
 
-	kit.Run(t, "C01", "wb-concurrent", kit.N(300, 6000), func(c *kit.Case) { vfRunConcurrent(c, vc) })
+	kit.Run(t, "C01", "wb-weight-floor", kit.N(300, 4000), func(c *kit.Case) { vfRunWeightFloor(c, vc) })
+
+	kit.Run(t, "C01", "wb-concurrent", kit.N(600, 9000), func(c *kit.Case) { vfRunConcurrent(c, vc) })
 
 	kit.End()
 }
